@@ -179,6 +179,7 @@ func c16Stores(c *Ctx, a *sketchAnchors) {
 		tc := newTermCtx(c.P)
 		ok := false
 		found := "no map update"
+		badUpdate := ""
 		for _, b := range f.Blocks {
 			for _, in := range b.Instrs {
 				mu, isMU := in.(*ssa.MapUpdate)
@@ -187,6 +188,26 @@ func c16Stores(c *Ctx, a *sketchAnchors) {
 				}
 				m, k, v := tc.Of(mu.Map), tc.Of(mu.Key), tc.Of(mu.Value)
 				found = fmt.Sprintf("%s[%s] = %s", m, k, v)
+				own := func(t *Term) bool {
+					if t.Op == "lookup" && t.Args[0].Key() == m.Key() && t.Args[1].Key() == k.Key() {
+						return true
+					}
+					return t.Op == "extract" && t.Sym == "2" && k.Op == "extract" && k.Sym == "1" && sameVal(t.Args[0], k.Args[0])
+				}
+				// EVERY update of the map in Reweight scales the entry's own weight by w: as the product, or — exact for a
+				// power of two — as Ldexp(own, e − 1) with (_, e) = Frexp(w)
+				if m.Op == "field" && m.Args[0].isParam(0) {
+					scaled := isTimesW(v, own, isW)
+					if !scaled && v.Op == "call" && v.Sym == "math.Ldexp" && len(v.Args) == 2 && own(v.Args[0]) {
+						e := v.Args[1]
+						if e.isBin("-") && e.Args[1].isConst("1") && e.Args[0].Op == "extract" && e.Args[0].Sym == "1" && e.Args[0].Args[0].Op == "call" && e.Args[0].Args[0].Sym == "math.Frexp" && isW(e.Args[0].Args[0].Args[0]) {
+							scaled = true
+						}
+					}
+					if !scaled {
+						badUpdate = found
+					}
+				}
 				// key comes from ranging over the same map
 				fromRange := false
 				k.walk(func(x *Term) bool {
@@ -207,7 +228,10 @@ func c16Stores(c *Ctx, a *sketchAnchors) {
 				}
 			}
 		}
-		c.R.check(ok, rule, "SparseStore.Reweight/map-loop", shortFn(f), c.fpos(f), "for k := range counts { counts[k] *= w } (or `for k, v := range counts { counts[k] = v*w }`)", found)
+		if badUpdate != "" {
+			ok, found = false, "an update that does not scale the entry's own weight by w: "+badUpdate
+		}
+		c.R.check(ok, rule, "SparseStore.Reweight/map-loop", shortFn(f), c.fpos(f), "for k := range counts { counts[k] *= w } (or `for k, v := range counts { counts[k] = v*w }`) — and no other update of the map", found)
 	}
 	// ---- paginated
 	if pr.err == "" {
